@@ -31,6 +31,7 @@ def step (line : String) : String :=
   | "rq" :: rest => Driver.ReqClient.run rest
   | "rqcut" :: rest => Driver.ReqClient.runCut rest
   | "rqreuse" :: rest => Driver.ReqClient.runReuse rest
+  | "rqstall" :: rest => Driver.ReqClient.runStall rest
   | "ppraw" :: rest => Driver.SubClient.run rest
   | "rp" :: rest => Driver.Replier.run rest
   | "pp" :: rest => Driver.PubClient.run rest
